@@ -62,6 +62,12 @@ def run(ctx, report):
             report.check("TS", key, ok, "%s commits a record keyed, signed and identified by the same key parameter, within the size limit" % f.name,
                          "%s can commit an invalid record: %s" % (f.name, "; ".join(why)), fn=f.path, sp=c.sp, config=cfg, detail=st)
             all_ok = all_ok and ok
+        # the typestate takes `sign(obj, k)` as "signed by k": that holds only where sign returned Ok - the failure edge
+        # of every sign result must be tested and must not lead to a commit (`new_enr.sign(key).ok();` would commit a
+        # record carrying its old signature)
+        for leak in unchecked_results(ctx, f, [c.bb for c in info.commits], lambda t: t.callee is not None and t.callee.target() == "Enr::<K>::sign"):
+            report.violate("TS", "%s/sign-unchecked" % f.name, "%s can commit after sign() failed: the result of sign is %s" % (f.name, leak[1]), fn=f.path, sp=leak[0], config=cfg)
+            all_ok = False
         # unknown mutations of the work object
         for rf in info.flows:
             for ev, act in rf.all_actions():
@@ -109,6 +115,59 @@ def run(ctx, report):
         report.analysed_fns.add(f.path)
         gate_rule(ctx, report, f, rule="DECODE")
     shadow_rule(ctx, report, infos)
+
+
+def unchecked_results(ctx, f, sinks, is_call):
+    """[(span, why)] for calls selected by is_call whose Result is not tested, or whose failure edge reaches one of the sink blocks"""
+    an = ctx.an(f)
+    out = []
+    for b, t in f.calls():
+        if b.cleanup or not is_call(t) or b.idx not in an.cfg.succ:
+            continue
+        if not any(s_ == b.idx or s_ in an.cfg.reach(b.idx) for s_ in sinks):
+            continue
+        tested = False
+        leak = False
+        sw = []
+        for n in an.cfg.nodes:
+            info = an.switch_info(n)
+            if info is None or info[0].k != "discr" or not info[3]:
+                continue
+            if not any(x.k == "call" and x.site == b.idx and x.a[0].name == t.callee.name for x in info[0].walk()):
+                continue
+            sw.append((n, info))
+
+        def success_targets(info):
+            cond, targets, otherwise, names = info
+            out_ = [tb for v, tb in targets if names.get(v) in ("Continue", "Ok", "Some")]
+            rest = set(names.values()) - {names.get(x) for x, _ in targets}
+            if rest and rest <= {"Continue", "Ok", "Some"}:
+                out_.append(otherwise)
+            return out_
+        for n, info in sw:
+            # a second test of the same result on the success path of the first (drop elaboration re-reads the
+            # discriminant to drop the payload): its failure edge is infeasible
+            if any(n1 != n and any(an.cfg.dominates(st_, n) for st_ in success_targets(i1)) for n1, i1 in sw):
+                continue
+            cond, targets, otherwise, names = info
+            for v, tb in list(targets) + [("otherwise", otherwise)]:
+                lab = names.get(v) if v != "otherwise" else None
+                if lab in ("Continue", "Ok", "Some"):
+                    tested = True
+                    continue
+                if lab is None:
+                    rest = set(names.values()) - {names.get(x) for x, _ in targets}
+                    if rest and rest <= {"Continue", "Ok", "Some"}:
+                        tested = True
+                    if not rest or rest <= {"Continue", "Ok", "Some"}:
+                        continue
+                if tb is not None and any(s_ == tb or s_ in an.cfg.reach(tb) for s_ in sinks):
+                    leak = True
+        if not tested:
+            out.append((t.sp, "never tested"))
+        elif leak:
+            out.append((t.sp, "tested, but its failure edge still reaches the commit"))
+    return out
 
 
 # ------------------------------------------------------------------ encapsulation
@@ -287,6 +346,31 @@ def build_rule(ctx, report):
                 pre_val, after, others, bool(ids), bool(pks), "" if same_key else "; the inserted public key and the signing key are not the same parameter", "" if pk_val else "; the stored key bytes are not public(key).encode()")
     report.check("BUILD", "build/key-then-sign", ok23, "build() adds id and public(key) after validating, signs the payload taken afterwards with the same key, and writes nothing after that",
                  "build(): " + why, fn=f.path, sp=f.span, config=cfg)
+    # (4b) the scheme that is signed under is v4: every test of the builder's `id` on the way to sign_v4 is a comparison
+    # with "v4" taken on its equal side (sweep mutants: `"v5" => key.sign_v4(..)`, `if self.id == "v4" { return Err }`)
+    if len(signs) == 1:
+        sb, st_ = signs[0]
+        wrong = []
+        for d, cond, allowed, alll in an.constraints_at(sb.idx):
+            c0 = strip(cond)
+            neg = False
+            while c0.k == "unop" and c0.a[0] == "Not":
+                neg = not neg
+                c0 = strip(c0.a[1])
+            if not (c0.k == "call" and c0.a[0].name in ("eq", "ne") and len(c0.a[1]) == 2):
+                continue
+            if not any(x.k == "field" and x.a[1] == "id" and strip(x.a[0]).k == "param" for a_ in c0.a[1] for x in a_.walk()):
+                continue
+            true_edge = ("otherwise" in allowed or 1 in allowed) and 0 not in allowed
+            false_edge = allowed == {0}
+            holds = (true_edge and not neg) or (false_edge and neg)
+            fails = (false_edge and not neg) or (true_edge and neg)
+            equal = (c0.a[0].name == "eq" and holds) or (c0.a[0].name == "ne" and fails)
+            lits = [strip(x).a[0] for x in c0.a[1] if strip(x).k == "const"]
+            if not (equal and any(l in (b"v4", "v4") for l in lits)):
+                wrong.append(short(cond, 100))
+        report.check("BUILD", "build/signs-under-v4", not wrong, "every test of the builder's id on the way to sign_v4 is `id == \"v4\"` taken on its equal side",
+                     "build() signs under an identity-scheme test other than id == \"v4\": %s" % wrong, fn=f.path, sp=st_.sp, config=cfg)
     # (5) the record is assembled from exactly those parts
     for b in f.blocks:
         if b.idx not in g.succ:
